@@ -51,6 +51,70 @@ let c11q (f : string list) : string =
         if b then "1" else "0" in
       "Q " ^ String.concat "" (List.map bit rows)
   | _ -> "Q ?"
+(* M <env> <nf> <filter>*nf <nr> <row>*nr  -> per filter one bit per row: filter_query (Lang/StrFilter.v) of the filter
+   written with each comparison's escaper; filter in prefix form:
+     and F F | or F F | not F | grp F | t | f | ne F | em F | cnt F | a <lhs> <op> <esc> <n> <hex>*n
+   row: <name>/<descr>/<tags>/<peers>  (~ = no value / no set; sets hex,hex,..);  `?` = the model abstains (icontains
+   over non-ASCII text) *)
+let rec c11m_filter (tok : string list) : atom filter * string list * bool =
+  (* returns the filter, the remaining tokens, and whether an icontains comparison has a non-ASCII literal *)
+  match tok with
+  | "t" :: r -> (FConst true, r, false)
+  | "f" :: r -> (FConst false, r, false)
+  | "grp" :: r -> c11m_filter r
+  | "not" :: r -> let (f, r, na) = c11m_filter r in (FNot f, r, na)
+  | "ne" :: r -> let (f, r, na) = c11m_filter r in (FSub (SubNotEmpty, f), r, na)
+  | "em" :: r -> let (f, r, na) = c11m_filter r in (FSub (SubEmpty, f), r, na)
+  | "cnt" :: r -> let (f, r, na) = c11m_filter r in (FSub (SubCountPos, f), r, na)
+  | "and" :: r -> let (f, r, na) = c11m_filter r in let (g, r, nb) = c11m_filter r in (FAnd (f, g), r, na || nb)
+  | "or" :: r -> let (f, r, na) = c11m_filter r in let (g, r, nb) = c11m_filter r in (FOr (f, g), r, na || nb)
+  | "a" :: lhs :: op :: esc :: ns :: r ->
+      let (hs, r) = c11q_take (int_of_string ns) r in
+      let vals = List.map bytes_of_hex hs in
+      let s = match vals with v :: _ -> v | [] -> [] in
+      let lit v = if esc = "min" then literal_min v else literal_full v in
+      let l = match lhs with
+        | "name" -> LField FName | "descr" -> LField FDescr | "any" -> LAnyTags | "all" -> LAllTags | _ -> LAnyPeerNames in
+      let v = match op with
+        | "eq" -> VCmp (SEq, s) | "neq" -> VCmp (SNeq, s) | "lt" -> VCmp (SLt, s) | "le" -> VCmp (SLe, s)
+        | "gt" -> VCmp (SGt, s) | "ge" -> VCmp (SGe, s)
+        | "contains" -> VContains (false, s) | "ncontains" -> VContains (true, s)
+        | "icontains" -> VIContains (false, s) | "nicontains" -> VIContains (true, s)
+        | "in" -> VIn (false, vals) | _ -> VIn (true, vals) in
+      let fold = (op = "icontains" || op = "nicontains") in
+      (FAtom (l, write_atom lit v), r, fold && not (c11q_ascii s))
+  | _ -> failwith "bad filter"
+let rec c11m_has_fold (tok : string list) = List.mem "icontains" tok || List.mem "nicontains" tok
+let c11m_row (tok : string) : row * bool =
+  match String.split_on_char '/' tok with
+  | [name; descr; tags; peers] ->
+      let opt x = if x = "~" then None else Some (bytes_of_hex x) in
+      let set x = if x = "~" then [] else List.map bytes_of_hex (String.split_on_char ',' x) in
+      let r = { r_name = opt name; r_descr = opt descr; r_tags = c11q_sort_uniq (set tags); r_peers = set peers } in
+      let ascii = List.for_all c11q_ascii ((match r.r_name with Some v -> [v] | None -> []) @
+                    (match r.r_descr with Some v -> [v] | None -> []) @ r.r_tags @ r.r_peers) in
+      (r, ascii)
+  | _ -> failwith "bad row"
+let c11m (f : string list) : string =
+  try
+    match f with
+    | _env :: nfs :: rest ->
+        let nf = int_of_string nfs in
+        let rec filters k tok acc =
+          if k = 0 then (List.rev acc, tok) else
+          let before = tok in
+          let (flt, r, na) = c11m_filter tok in
+          let used = fst (c11q_take (List.length before - List.length r) before) in
+          filters (k - 1) r ((flt, na, c11m_has_fold used) :: acc) in
+        let (fs, rest) = filters nf rest [] in
+        let rows = match rest with _ :: rows -> List.map c11m_row rows | [] -> [] in
+        let rows_ascii = List.for_all snd rows in
+        let one (flt, na, fold) =
+          if na || (fold && not rows_ascii) then "?" else
+          String.concat "" (List.map (fun (r, _) -> if filter_query flt r then "1" else "0") rows) in
+        "M " ^ String.concat " " (List.map one fs)
+    | _ -> "M ?"
+  with _ -> "M ?"
 let () =
   let sub = if Array.length Sys.argv > 1 then Sys.argv.(1) else "c11" in
   ignore sub;
@@ -64,5 +128,6 @@ let () =
           (hex_of_bytes (parse_zql_string lm)) (hex_of_bytes (parse_zql_string lf))
     | ["B"; h] -> print_endline ("B " ^ bool_str (body_ok (bytes_of_hex h)))
     | "Q" :: f -> print_endline (c11q f)
+    | "M" :: f -> print_endline (c11m f)
     | [] -> ()
     | _ -> print_endline "?")
